@@ -1365,7 +1365,7 @@ package mqtt
 //@ ensures C16-will-published-once-as-requested: aclOK(cl, old(cl.Properties.Will.TopicName), true) && old(cl.Properties.Will.Flag) != 0 && old(cl.Properties.Will.WillDelayInterval) == 0 ==> nrouted == old(nrouted) + 1 && routedpk[old(nrouted)].TopicName == old(cl.Properties.Will.TopicName) && routedpk[old(nrouted)].Payload == old(cl.Properties.Will.Payload) && routedpk[old(nrouted)].FixedHeader.Qos == old(cl.Properties.Will.Qos) && (routedpk[old(nrouted)].FixedHeader.Retain <==> old(cl.Properties.Will.Retain)) && routedpk[old(nrouted)].FixedHeader.Type == Publish && cl.Properties.Will.Flag == 0
 //@ ensures C16-retained-will-reaches-the-retained-store: aclOK(cl, old(cl.Properties.Will.TopicName), true) && old(cl.Properties.Will.Flag) != 0 && old(cl.Properties.Will.WillDelayInterval) == 0 && old(cl.Properties.Will.Retain) && s.Options.Capabilities.RetainAvailable != 0 ==> nretain == old(nretain) + 1
 //@ ensures C16-delayed-will-waits-for-its-delay: aclOK(cl, old(cl.Properties.Will.TopicName), true) && old(cl.Properties.Will.Flag) != 0 && old(cl.Properties.Will.WillDelayInterval) > 0 ==> nrouted == old(nrouted) && nretain == old(nretain) && has(wd(s), cl.ID) && wd(s)[cl.ID].TopicName == old(cl.Properties.Will.TopicName) && wd(s)[cl.ID].Expiry == unixOf(lastNow) + int64(old(cl.Properties.Will.WillDelayInterval))
-//@ ensures C17-will-needs-write-permission: !aclOK(cl, old(cl.Properties.Will.TopicName), true) ==> nrouted == old(nrouted) && nretain == old(nretain)
+//@ ensures C17-will-needs-write-permission: !aclOK(cl, old(cl.Properties.Will.TopicName), true) ==> nrouted == old(nrouted) && nretain == old(nretain) && (forall k string :: (has(wd(s), k) <==> old(has(wd(s), k))) && (has(wd(s), k) ==> wd(s)[k] == old(wd(s)[k])))
 // verif:func mqtt.Clients.GetByListener
 //@ requires C32-lock-not-held-by-this-goroutine: cl.RWMutex.lheld == 0
 //@ ensures C32-lock-released-on-return: cl.RWMutex.lheld == 0
